@@ -45,21 +45,24 @@ ASSUMPTIONS = ['astropy.nddata.utils.overlap_slices defines the documented cutou
                'math.fsum / numpy.linalg (svd rank guard only) are trusted',
                'comparisons of a library call with another library call on identical arrays are exact (0,0)']
 
-# tolerances (measured maxima are reported in the evidence under max_deviation)
-TOL_COM = 1e-12        # x cond x max(1, size): rounding of a sum of <= 625 terms
-TOL_QUAD = 1e-9
-TOL_SYM_COM = 1e-10
-TOL_SYM_GAUSS = 1e-4
-TOL_REL_GAUSS = 1e-6          # flips/transpose of a Gaussian fit: measured <= 2e-9
-TOL_SCALE_GAUSS = 1e-3        # rescaling, noise-free sources (zero-residual fits): measured <= 9e-6.  On noisy
-                              # sources the fitter's termination point moves by up to ~5e-2 px with the scale of
-                              # the data (measured); there the deviation is recorded, not judged.
+# tolerances; measured maxima (thorough tier, 68k cases, absolute pixels) in brackets; all are also reported in
+# the evidence under max_deviation (*_abs_px)
+TOL_COM = 1e-12        # x cond x max(1, size) [4.5e-16 of that product; 1.1e-14 px]
+TOL_QUAD = 1e-9        # exact quadratic vertex: max(1e-9, 2e-12 * max|data| / min curvature) [1.1e-14 of that ratio,
+                       # 6.3e-11 px]; symmetric pixel-centred source [4.1e-12 px]
+TOL_QUAD_REL = 1e-8    # flips / transpose / rescale of a quadratic fit [3.2e-11 px]
+TOL_SYM_COM = 1e-10    # x cond [5.3e-15 px]
+TOL_SYM_GAUSS = 1e-6   # point-symmetric input of a Gaussian fit [8.9e-16 px]
+TOL_REL_GAUSS = 1e-4   # flips / transpose of a Gaussian fit [1.6e-7 px (1dg), 2.2e-8 px (2dg)]
+TOL_SCALE_GAUSS = 1e-2  # rescaling, noise-free sources (zero-residual fits) [4.7e-5 px (1dg), 8.3e-7 px (2dg)].  On noisy
+                        # sources the end point of the fitter moves with the scale of the data by up to 5.4e-2 px
+                        # (2dg, measured): recorded under *_rescale_noisy_source_not_judged, not judged.
 
 
 def plan(tier):
     if tier == 'thorough':
         return dict(shards=16, cases=6000, timeout=2400, budget_s=600)
-    return dict(shards=8, cases=260, timeout=600, budget_s=70)
+    return dict(shards=8, cases=600, timeout=600, budget_s=70)
 
 
 def selftest():
@@ -177,6 +180,15 @@ def _garbage(rng, data, mask):
     return g
 
 
+def _absdev(case, name, obs, exp):
+    """Track the largest ABSOLUTE deviation (pixels) of a tolerance-based comparison."""
+    o, e = np.asarray(obs, float), np.asarray(exp, float)
+    if o.shape == e.shape:
+        f = np.isfinite(o) & np.isfinite(e)
+        if f.any():
+            case.dev(name + '_abs_px', float(np.max(np.abs(o[f] - e[f]))))
+
+
 def _com_tol(cond, shape):
     return TOL_COM * max(1.0, cond) * max(1.0, float(max(shape)))
 
@@ -247,6 +259,9 @@ def _run_com_def(case):
         return
     good = np.isfinite(np.asarray(data, float)) & (~mask if mask is not None else True)
     case.nontrivial = int(np.count_nonzero(np.where(good, np.asarray(data, float), 0))) >= 2
+    _absdev(case, 'com_vs_definition', obs, exp)
+    if np.all(np.isfinite(obs)) and np.all(np.isfinite(exp)):
+        case.dev('com_vs_definition_abs_over_cond_times_size', float(np.max(np.abs(obs - exp))) / (cond * max(shape)))
     case.close(obs, exp, 'com_vs_definition', atol=_com_tol(cond, shape), mech=mech, cond=cond)
 
 
@@ -297,6 +312,7 @@ def _relations(case, func, fname, data, kw, tol, mech, scale_error=True, scale_t
         else:
             exp = base[::-1]
         m = dict(mech, rel=t)
+        _absdev(case, f'{fname}_commutes_with_flip_transpose', obs, exp)
         case.close(obs, exp, f'{fname}_commutes_with_flip_transpose', atol=tol, mech=m, base=base)
         n += 1
     k = float(rng.choice([2.0, 0.5, 10.0, 1e3, 3.7, 1e-3, 1.0 / 3.0]))
@@ -308,6 +324,7 @@ def _relations(case, func, fname, data, kw, tol, mech, scale_error=True, scale_t
         case.note('fit_not_converged_relation_not_judged')
         return base, n
     if scale_verdict:
+        _absdev(case, f'{fname}_invariant_under_positive_rescale', obs, base)
         case.close(obs, base, f'{fname}_invariant_under_positive_rescale', atol=tol if scale_tol is None else scale_tol,
                    mech=dict(mech, rel='scale', pow2=k in (2.0, 0.5),
                              err_scaled=bool(scale_error and 'error' in kw2)), k=k)
@@ -440,7 +457,9 @@ def _run_quad_exact(case):
     obs = _call(centroid_quadratic, data, **kw)
     case.check(obs.shape == (2,), 'quad_shape', mech)
     vertex = np.array([x0, y0])
-    at_vertex = bool(np.all(np.abs(obs - vertex) <= TOL_QUAD))
+    with np.errstate(invalid='ignore'):
+        at_vertex = bool(np.all(np.abs(obs - vertex) <= max(TOL_QUAD, 2e-12 * float(np.max(np.abs(data[good])))
+                                                            / min(abs(lam1), abs(lam2)))))
     is_nan = bool(np.all(np.isnan(obs)))
 
     def weak(extra_ok=False):
@@ -494,7 +513,13 @@ def _run_quad_exact(case):
         case.check(is_nan, 'quad_vertex_outside_image_gives_nan', mech, obs=obs, vertex=vertex)
     elif inside_img and in_box:
         case.nontrivial = True
-        case.close(obs, vertex, 'quad_exact_vertex', atol=TOL_QUAD, mech=mech, start=[sx, sy], box=list(box))
+        # rounding of the least-squares solution grows with |data| / curvature (measured: <= 8e-15 of that ratio)
+        ratio = float(np.max(np.abs(data[good]))) / min(abs(lam1), abs(lam2))
+        tolv = max(TOL_QUAD, 2e-12 * ratio)
+        _absdev(case, 'quad_exact_vertex', obs, vertex)
+        if np.all(np.isfinite(obs)):
+            case.dev('quad_exact_vertex_abs_over_data_to_curvature_ratio', float(np.max(np.abs(obs - vertex))) / ratio)
+        case.close(obs, vertex, 'quad_exact_vertex', atol=tolv, mech=mech, start=[sx, sy], box=list(box))
     else:
         case.note('quad_vertex_outside_fit_box')
         weak()
@@ -556,7 +581,7 @@ def _run_quad_rel(case):
     kwm = dict(kw)
     if mask is not None:
         kwm['mask'] = mask
-    base, n = _relations(case, centroid_quadratic, 'quadratic', data, kwm, TOL_QUAD, dict(mech, mode=mode))
+    base, n = _relations(case, centroid_quadratic, 'quadratic', data, kwm, TOL_QUAD_REL, dict(mech, mode=mode))
     if mask is not None:
         n += _masked_irrelevant(case, centroid_quadratic, 'quadratic', data, mask, kw, mech, base)
     # documented start of the fit: the maximum of the data (no peak keywords), the maximum inside the search
@@ -638,6 +663,7 @@ def _run_sym(case):
             case.skip('ill-conditioned total')
         obs = _call(func, data, **kw)
         case.nontrivial = True
+        _absdev(case, 'com_symmetric_source_centre', obs, centre)
         case.close(obs, centre, 'com_symmetric_source_centre', atol=TOL_SYM_COM * cond, mech=mech)
     elif fname == 'quadratic':
         start, gap = ref.quad_start_pixel(data, mask)
@@ -655,6 +681,7 @@ def _run_sym(case):
             case.note('quadratic_symmetric_partial_box_nan')
             return
         case.nontrivial = True
+        _absdev(case, 'quadratic_symmetric_source_centre', obs, centre)
         case.close(obs, centre, 'quadratic_symmetric_source_centre', atol=TOL_QUAD, mech=dict(mech, partial_box=partial),
                    box=list(box))
     else:
@@ -666,6 +693,7 @@ def _run_sym(case):
             case.note('fit_not_converged_symmetry_not_judged')
             return
         case.nontrivial = True
+        _absdev(case, f'gauss{fname}_symmetric_source_centre', obs, centre)
         case.close(obs, centre, f'gauss{fname}_symmetric_source_centre', atol=TOL_SYM_GAUSS,
                    mech=dict(mech, error='error' in kw, masked=mask is not None))
 
